@@ -187,7 +187,7 @@ def run(prog: Program, chk: Check):
     dg = C.build(rd.node)
     dgs = flow.guard_states(dg)
     false_rets = [n for n in dg.nodes if n.kind == "stmt" and isinstance(n.ast, ast.Return) and isinstance(n.ast.value, ast.Constant) and n.ast.value.value is False]
-    if len(false_rets) < 2:
+    if len(false_rets) < 1:  # one shared failure exit (`drop_reason = ...` ... `return False`) is as good as one per receive
         raise AnalysisError("anchor vanished: read_message short-read returns")
     rmn = [n for n in dg.nodes if any(is_rm(c) for c in node_calls(n))]
     for n in false_rets:
@@ -220,10 +220,16 @@ def run(prog: Program, chk: Check):
                     if guards.implies([(e.cond, e.pol)], goal) or guards.implies([(e.cond, e.pol)], guards.parse(f"not ({norm(goal.left)} < {norm(size)})")):
                         continue  # the continuing edge: the whole size arrived (a receive never returns more than was asked for)
                     # any other edge must be the short-read handling: every normal path from it ends in `return False`
+                    # (path facts with a ghost mark on this edge: a flag set in the handling branch and tested at a shared exit
+                    # prunes the continuation to the success return)
                     fr_ids = {x.id for x in false_rets}
-                    r2 = flow.reach(dg, [e.dst], blocked=fr_ids, follow=lambda x: x.kind != "exc", blocked_pass_exc=False)
-                    if dg.exit.id in r2 and e.dst not in fr_ids:
-                        exact = False
+                    key = (e.src, e.dst, e.kind, e.pol)
+                    gm = flow.guard_states(dg, edge_filter=lambda x: x.kind != "exc", marks=lambda x, key=key: "@short" if (x.src, x.dst, x.kind, x.pol) == key else None)
+                    for ex in dg.pred[dg.exit.id]:
+                        if ex.kind == "exc" or ex.src in fr_ids or (dg.nodes[ex.src].kind == "stmt" and isinstance(dg.nodes[ex.src].ast, ast.Raise)):
+                            continue
+                        if any(any(norm(f_) == "@short" for f_, _ in p_) for p_ in gm.after_edge(ex)):
+                            exact = False
         F.decide(exact, fkey(rd, f"recv-checked:{norm(n.ast)[:60]}"), where(rd, n.ast), "the received byte count is compared with the requested size before the data is used",
                  "a receive's byte count is not compared with the size that was requested (a short, non-zero read would pass for a complete one)")
     # (2) ConnectionError handlers around sends and reads
@@ -273,7 +279,7 @@ def run(prog: Program, chk: Check):
     after = flow.reach(cgm, [n.id for n in first_store])
     refusals = [n for n in cgm.nodes if n.id in after and n.kind == "stmt" and isinstance(n.ast, ast.Return)
                 and isinstance(n.ast.value, ast.Constant) and not n.ast.value.value]
-    if len(refusals) < 2:
+    if len(refusals) < 1:  # one shared exit (`except _Refused: ...; return False`) is as good as one per check
         raise AnalysisError("anchor vanished: connect_module refusal returns")
     rmn = [n for n in cgm.nodes if any(self_call("remove_module")(c) and c.args and path_of(c.args[0]) == cmp_ for c in node_calls(n))]
     for n in refusals:
